@@ -9,7 +9,7 @@ def accStep (a x : Str) : Str := if x = [] then a else joinSp a x
 def defsOf (ms : Str × Stmt) : List Str :=
   match ms.2 with
   | .func n => [n]
-  | .export p => [ms.1 ++ '_' :: p, p]
+  | .export ps => ps
   | _ => []
 
 theorem own_append (v : Str) (l1 l2 : List Stmt) : ∀ cur, own v (l1 ++ l2) cur = own v l2 (own v l1 cur) := by
